@@ -32,8 +32,21 @@ def analyse(seed):
   flevel = rng.choice([0.9, 0.95, 0.99])
   par = P.TBRMMDesignParameters(n_test=T, iroas=1.0, sig_level=sig, power_level=power, flevel=flevel)
   x, y = series(rng, n)
-  d = D.TBRMMDiagnostics(np.array(y), par)
-  d.x = np.array(x)
+  r2 = random.Random(seed * 31 + 7)
+  reuse = r2.random() < 0.5
+  if reuse:
+    # the object has a history: another pair of series (of another length) was analysed on it first
+    x0, y0 = series(r2, r2.choice([n + 7, max(5, n // 2), 90, 12]))
+    d = D.TBRMMDiagnostics(np.array(y0), par)
+    d.x = np.array(x0)
+    float(d.required_impact)
+    float(d.estimate_required_impact(0.5))
+    d.y = np.array(y)
+    d.x = np.array(x)
+  else:
+    d = D.TBRMMDiagnostics(np.array(y), par)
+    d.x = np.array(x)
+  out['reused'] = reuse
   impact = float(d.required_impact)
   tqs, tqp = float(stats.t.ppf(sig, n - 2)), float(stats.t.ppf(power, n - 2))
   phi = float(stats.f(dfn=1, dfd=n - 1).ppf(flevel))
@@ -92,7 +105,7 @@ def analyse(seed):
       tbrfam.pts(list(zip(x, y))), tbrfam.qm(T), tbrfam.qm(phi), tbrfam.qm(tqs), tbrfam.qm(tqp), tbrfam.qm(impact),
       tbrfam.qm(float(d.estimate_required_impact(0.9))), tbrfam.qm(xt), tbrfam.qm(yt), tbrfam.qm(float(fit.estimate)),
       tbrfam.qm(float(fit.scale)))
-  out['params'] = {'n': n, 'n_test': T, 'sig_level': sig, 'power_level': power, 'flevel': flevel}
+  out['params'] = {'reused_object': reuse, 'n': n, 'n_test': T, 'sig_level': sig, 'power_level': power, 'flevel': flevel}
   return out
 
 
@@ -128,13 +141,14 @@ def run(tier):
     ck.tie_broken('correspondence', 'TBRMMDiagnostics vs model/TBRMath.v on %d of %d cases' % (len(bad), len(terms)), {'seed': owners[bad[0]]})
   ck.sample(res[0].get('params', {}))
   ck.sample(res[1].get('params', {}))
-  ck.cov['rule'] = ('random pretest series (n = 5-60, three noise levels), n_test 1-30, (sig_level, power_level) from a grid that includes '
+  ck.cov['rule'] = ('random pretest series (n = 5-60, three noise levels), on a fresh TBRMMDiagnostics object or (half of the cases) on one that analysed series of another length before, n_test 1-30, (sig_level, power_level) from a grid that includes '
                     'settings with sig_level + power_level < 1, flevel in {.9, .95, .99}; for each: required impact vs the TBR posterior '
                     'scale of an experiment frame whose control test mean is displaced by the planning F-quantile; treatment = '
                     'counterfactual + required impact, then estimate and one-sided lower bound; monotonicity over |corr|, unit scaling, '
                     'level shift; required impact / estimate_required_impact / tbrfit against the exact rational model')
   ck.cov['correspondence'] = {'cases_model_vs_impl': len(terms), 'disagreements': len(bad)}
   ck.cov['known_finding_observations'] = known
+  ck.cov['distribution'] = {'reused_object': sum(1 for o in res if o.get('reused')), 'fresh_object': sum(1 for o in res if o.get('reused') is False)}
   ck.assumptions = ['t and F quantiles are taken from scipy and passed to the model as oracles']
   return ck.finish('proof', TRUSTED)
 
